@@ -89,6 +89,7 @@ type applied struct {
 func (s *sys) apply(ev string) applied {
 	a := applied{ev: ev}
 	s.curEvent = ev
+	s.resend = nil
 	s.replayJump = false
 	parts := strings.Split(ev, ":")
 	switch parts[0] {
@@ -358,9 +359,13 @@ func (s *sys) applyPH(args []string) string {
 			}
 		}
 	}
-	return s.call("HandleProposedHeader", func(ctx context.Context) string {
-		return s.handler().HandleProposedHeader(ctx, ph).String()
-	})
+	send := func() string {
+		return s.call("HandleProposedHeader", func(ctx context.Context) string {
+			return s.handler().HandleProposedHeader(ctx, ph).String()
+		})
+	}
+	s.resend = send
+	return send()
 }
 
 func (s *sys) applyVote(args []string) (string, bool) {
@@ -552,19 +557,26 @@ func (s *sys) applyVote(args []string) (string, bool) {
 			}
 		}
 	}
-	var res string
+	var send func() string
 	if kind == 'p' {
 		msg := tmconsensus.PrevoteSparseProof{Height: h, Round: r, PubKeyHash: pkh, Proofs: proofs}
-		res = s.call("HandlePrevoteProofs", func(ctx context.Context) string {
-			return s.handler().HandlePrevoteProofs(ctx, msg).String()
-		})
+		send = func() string {
+			return s.call("HandlePrevoteProofs", func(ctx context.Context) string {
+				return s.handler().HandlePrevoteProofs(ctx, msg).String()
+			})
+		}
 	} else {
 		msg := tmconsensus.PrecommitSparseProof{Height: h, Round: r, PubKeyHash: pkh, Proofs: proofs}
-		res = s.call("HandlePrecommitProofs", func(ctx context.Context) string {
-			return s.handler().HandlePrecommitProofs(ctx, msg).String()
-		})
+		send = func() string {
+			return s.call("HandlePrecommitProofs", func(ctx context.Context) string {
+				return s.handler().HandlePrecommitProofs(ctx, msg).String()
+			})
+		}
 	}
-	return res, allInvalid
+	// The very same message can be delivered again (redelivery after a restart): event strings are addressed relative
+	// to the network's position, which the first delivery may already have moved.
+	s.resend = send
+	return send(), allInvalid
 }
 
 func (s *sys) applyReplay(variant string) string {
@@ -663,6 +675,14 @@ func (s *sys) applyReplay(variant string) string {
 		}
 	}
 	proof := tmconsensus.CommitProof{Round: r, PubKeyHash: string(hd.ValidatorSet.PubKeyHash), Proofs: map[string][]gcrypto.SparseSignature{hash: sigs}}
+	var send func() string
+	send = func() string { return s.sendReplay(variant, hd, proof, signers, h, r, hash) }
+	s.resend = send
+	return send()
+}
+
+func (s *sys) sendReplay(variant string, hd tmconsensus.Header, proof tmconsensus.CommitProof, signers []int, h uint64, r uint32, hash string) string {
+	w := s.w
 	resp := make(chan tmelink.ReplayedHeaderResponse, 1)
 	select {
 	case s.rhr <- tmelink.ReplayedHeaderRequest{Header: hd, Proof: proof, Resp: resp}:
